@@ -514,24 +514,38 @@ def rule_r11(ctx):
         for f in m.all_funcs:
             if isinstance(f.node, ast.Lambda):
                 continue
-            # planners: `<L>.append([])` and `<L>[-1].append(<t>)` on the same local inside a loop
-            opens = [c for c in calls_in(f) if isinstance(c.func, ast.Attribute) and c.func.attr == "append" and isinstance(c.func.value, ast.Name)
-                     and len(c.args) == 1 and isinstance(c.args[0], ast.List) and not c.args[0].elts]
-            for oc in opens:
+            # planners: `<L>.append([])` and `<L>[-1].append(<t>)` on the same local inside a loop; the open shard may also be
+            # held in a local (`cur = []; <L>.append(cur)` … `cur.append(<t>)`)
+            opens = []
+            for c in calls_in(f):
+                if not (isinstance(c.func, ast.Attribute) and c.func.attr == "append" and isinstance(c.func.value, ast.Name) and len(c.args) == 1):
+                    continue
+                a0 = c.args[0]
+                if isinstance(a0, ast.List) and not a0.elts:
+                    opens.append((c, None))
+                elif isinstance(a0, ast.Name):
+                    blk = getattr(getattr(c, "_parent", None), "_parent", None)
+                    fresh_here = any(isinstance(st, (ast.Assign, ast.AnnAssign)) and getattr(st, "value", None) is not None and isinstance(st.value, ast.List) and not st.value.elts
+                                     and any(isinstance(t, ast.Name) and t.id == a0.id for t in (st.targets if isinstance(st, ast.Assign) else [st.target]))
+                                     for st in getattr(blk, "body", []))
+                    if fresh_here:
+                        opens.append((c, a0.id))
+            for oc, cur in opens:
                 lst = oc.func.value.id
-                if not any(isinstance(c.func, ast.Attribute) and c.func.attr == "append" and norm(c.func.value) == f"{lst}[-1]" for c in calls_in(f)):
+                current = {f"{lst}[-1]"} | ({cur} if cur else set())
+                if not any(isinstance(c.func, ast.Attribute) and c.func.attr == "append" and norm(c.func.value) in current and c is not oc for c in calls_in(f)):
                     continue
                 iff = getattr(getattr(oc, "_parent", None), "_parent", None)
                 if not isinstance(iff, ast.If):
                     continue
                 n += 1
                 conj = iff.test.values if isinstance(iff.test, ast.BoolOp) else [iff.test]
-                by_list = any(f"{lst}[-1]" in norm(t) for t in conj)
+                by_list = any(any((isinstance(x, ast.Name) and x.id == cur) or (isinstance(x, ast.Subscript) and norm(x) == f"{lst}[-1]") for x in ast.walk(t)) for t in conj)
                 counters = {a.target.id for a in own_nodes(f.node) if isinstance(a, ast.AugAssign) and isinstance(a.target, ast.Name)}
                 by_counter = [t for t in conj if (isinstance(t, ast.Name) and t.id in counters) or (
                     isinstance(t, ast.Compare) and len(t.ops) == 1 and isinstance(t.left, ast.Name) and t.left.id in counters
                     and isinstance(t.comparators[0], ast.Constant) and t.comparators[0].value == 0)]
-                ctx.check("R11", f"{f.local}: a new shard is opened only when `{lst}[-1]` holds a tensor", by_list and not by_counter, f, iff,
+                ctx.check("R11", f"{f.local}: a new shard is opened only when `{sorted(current)[0]}` holds a tensor", by_list and not by_counter, f, iff,
                           f"`{norm(iff.test)}` decides that the current shard is not empty from a byte counter: after zero-size tensors the counter is still 0, so a "
                           "tensor larger than the limit is appended to the same shard - a shard that exceeds the limit and holds more than one tensor",
                           how="conjuncts of the test guarding `<shards>.append([])`: list emptiness, not `<counter> > 0`",
